@@ -28,6 +28,8 @@ def staticCmpTwo (op : Op) (l r : Val) : Bool :=
 an unparsable operand leaves the result untouched and returns no error. -/
 def staticCmp (cfg : LibCfg) (s : Src) (op : Op) (right : Seg) : CmpOut :=
   if s.kind == .foreign then .set false else
+  -- repaired: a typed-nil pointer is refused before anything is parsed (`if isNilPtr(src) { *result = false … }`)
+  if s.v.isNilPtr && !cfg.staticNilPtrPanics then .set false else
   -- the operand is parsed first; only a successful parse reaches `*src.(*T)`
   let deref (k : Val → CmpOut) : CmpOut :=
     if s.v.isNilPtr then (if cfg.staticNilPtrPanics then .panic else .set false) else k s.v
@@ -145,6 +147,8 @@ def staticCopy (cfg : LibCfg) (s : Src) : SCopy :=
 /-- CopyTo(src, dst, buf): `dstKind`/`dstIsPtr` describe the destination argument. -/
 def staticCopyTo (cfg : LibCfg) (s : Src) (dstKind : DynKind) (dstIsPtr dstNil : Bool) : SCopy :=
   if s.kind == .foreign then .unsupported else
+  -- repaired: a typed-nil source is refused before the destination is looked at
+  if (s.v.isNilPtr || (dstIsPtr && dstNil)) && !cfg.staticNilPtrPanics then .unsupported else
   if !(dstIsPtr && dstKind == s.kind) then .mustPointer else
   match s.v with
   | .nilptr => if cfg.staticNilPtrPanics then .panic else .unsupported
